@@ -563,6 +563,42 @@ func backSlice(v ssa.Value, o SliceOpts) map[ssa.Value]bool {
 		switch x := v.(type) {
 		case *ssa.Const, *ssa.Global, *ssa.Function, *ssa.Builtin:
 		case *ssa.Parameter:
+			if len(stack) == 0 && x.Parent().Parent() != nil {
+				// parameter of a local closure: (a) a range-over-func body / callback passed to a
+				// call: it receives what the callee yields, i.e. it derives from the called
+				// iterator value and its operands; (b) a closure called locally: the arguments at
+				// its call sites in the enclosing function and its other closures.
+				fn := x.Parent()
+				pidx := -1
+				for k, prm := range fn.Params {
+					if prm == x {
+						pidx = k
+					}
+				}
+				for _, g := range withAnon(topFunc(fn)) {
+					eachInstr(g, false, func(_ *ssa.Function, i ssa.Instruction) {
+						cc := callCommon(i)
+						if cc == nil {
+							return
+						}
+						for _, a := range cc.Args {
+							if mc, ok := a.(*ssa.MakeClosure); ok && mc.Fn == fn {
+								walk(cc.Value, nil, depth+1)
+								for _, b := range cc.Args {
+									if b != a {
+										walk(b, nil, depth+1)
+									}
+								}
+							}
+						}
+						if resolveCalleeDeep(cc) == fn && cc.StaticCallee() == nil || (cc.StaticCallee() == fn) {
+							if pidx >= 0 && pidx < len(cc.Args) {
+								walk(cc.Args[pidx], nil, depth+1)
+							}
+						}
+					})
+				}
+			}
 			// map back to the argument at the call on the stack, if we came from there
 			if len(stack) > 0 {
 				c := stack[len(stack)-1]
